@@ -163,14 +163,14 @@ CHECKS = {
   technique="TLC checks monoid laws on the reference meaning; Combine tables, real-instance law checks and Reduce/FoldMap results validated by TLC"),
  "C14": dict(
   text="Arity.tla states, per family and arity, the wiring of position-tagged arguments (identity permutation, shift, projection, "
-       "reversal, pipeline) and the number of user-function calls; TLC checks for all 37 families x arities 2..21 that nothing is "
-       "dropped, duplicated or reordered. Every member present in the repository (501: TupleN accessors, as.*, curried.*, hlist.*, "
+       "reversal, pipeline) and the number of user-function calls; TLC checks for all 45 families x arities 2..21 that nothing is "
+       "dropped, duplicated or reordered. Every member present in the repository (703 calls: TupleN and LabelledN accessors, as.* incl. as.LabelledN / HListNLabelled, product.LabelledFromHListN, curried.* incl. partial-application reuse probes, hlist.*, "
        "product.*, fp.ComposeN/IdN/ApplyFirstN/ApplyLastN, fn1.MergeN, unit.FuncN, eq/ord/hash/monoid/clone TupleN) is called with "
        "arguments of pairwise distinct types carrying their position; TLC (TraceArity) accepts only Arity!W and Arity!Calls. The "
        "option/try/either MapN/LiftAN/FlatMapN/LiftMN members run with position-tagged successes and are judged by EffectSpec.",
   note="Finite space, fully enumerated (exhaustive). Parametricity already forces much of the wiring at compile time; the check adds the "
-       "type-unforced parts (argument order inside instances, evaluation counts, Compose order, Id/Head/Last projections). Labelled* "
-       "families are exercised through gombok output (C07).",
+       "type-unforced parts (argument order inside instances, evaluation counts, Compose order, Id/Head/Last projections, dropped "
+       "components, state shared between partial applications).",
   technique="exhaustive enumeration of family members with position-tagged, distinctly typed arguments, validated by TLC against wiring tables"),
  "C07": dict(
   text="Gombok.tla states which API an @fp.Value declaration must get (getter/With per private field, Option setters, builder, "
